@@ -83,6 +83,8 @@ def variants(rng, g):
     for i, m in enumerate(base["migrations"]):
         paths.append(("migrations", i, "rate"))
         paths.append(("migrations", i, "end_time"))
+        if not math.isinf(m["start_time"]):
+            paths.append(("migrations", i, "start_time"))
     for i, p in enumerate(base["pulses"]):
         paths.append(("pulses", i, "time"))
         paths.append(("pulses", i, "proportions", 0))
@@ -105,6 +107,13 @@ def variants(rng, g):
                     sum(1 for q in base["pulses"] if min(old, new) <= q["time"] <= max(old, new)) > 1:
                 exp = None      # re-resolution re-sorts pulses whose times coincide or cross: the pulse lists differ in order
             yield ("perturb:" + ".".join(str(k) for k in path if isinstance(k, str)) + (":in" if exp else ":out"), exp, d)
+    # an infinite time against a finite one (never close, whatever the tolerances)
+    for i, m in enumerate(base["migrations"]):
+        if math.isinf(m["start_time"]):
+            d = copy.deepcopy(base)
+            d["migrations"][i]["start_time"] = max(2 * m["end_time"] + 1, rng.choice([5000.0, 1e12, 1e300]))
+            yield ("infinite-vs-finite:migration.start_time", False, d)
+            break
     d = copy.deepcopy(base); d["time_units"] = "years" if base["time_units"] != "years" else "ka"
     if base["time_units"] == "generations":
         d["generation_time"] = 1
